@@ -38,6 +38,8 @@ def coord(ctx):
                 st = ctx.enclosing_stmt(fi, n)
                 if par is None:
                     par = ctx.parents(fi)
+                if isinstance(par.get(id(n)), ast.Compare):
+                    continue      # comparing the coordinates of two records is not computing a position
                 blk = id(par.get(id(st)))
                 groups.setdefault(blk, []).append(st)
         for blk, stmts in groups.items():
